@@ -5,11 +5,23 @@
 //!        two writers over two sinks alive at the same time, operations interleaved as listed; the answer
 //!        describes writer <which>; the other writer's sink must equal ITS to_string rendering, otherwise
 //!        the verdict is F!other
-//!   M <rt> <op>*    the script runs in a child process (this binary, `--makeio <op>*`) through the real
-//!        `make_io!` (stdin/stdout locks) and ends by returning from the function; the parent reports what
-//!        arrived on the child's stdout (no `f` lengths: the child cannot see its pipe)
+//!   M <rt> <out> <thr0> <op>*    the script runs in a child process (this binary, `--makeio <thr0> <op>*`) through
+//!        the real `make_io!` (stdin/stdout locks) and ends by returning from the function; the parent reports what
+//!        arrived on the child's stdout (no `f` lengths: the child cannot see its pipe).
+//!        `nx` ops cut the script into SEVERAL make_io! invocations in the one child process, each in its own
+//!        function scope (the Writer of the earlier one has been dropped when the next one is made); between two
+//!        invocations the child may print a marker with plain `print!`; an invocation may run on a spawned thread
+//!        (<thr0> for the first one).  `e` ops take their value from the child's stdin through the `reader` that
+//!        make_io! made (the parent pipes the renderings in) and write it through `writer`.
+//!        <out>: 0 the child's stdout is a pipe | 1 an empty regular file | 2 a regular file that already holds a
+//!        line, the handle positioned behind it (the line must still be there afterwards)
 //! op  := w <val> | c <codepoint> | f | o <n> <val>*n | ol <n> <val>*n
 //!      | mv  (the writer is moved: boxed, passed through a function, moved back; no output)
+//!      | nw  (S only: the writer is dropped and a NEW Writer is made over the same sink; reported like an
+//!             explicit flush: the sink's length right after the drop)
+//!      | nx <hex|-> <0|1>  (M only: leave the function (drop), print the marker with print!, make_io! again,
+//!             on a spawned thread if 1)
+//!      | e <val>  (M only, <val> an integer or a whitespace-free string: read::<T>() from stdin, then write)
 //! val := <ity> <num> | s <hex|-> (String) | r <hex|-> (&str) | fill <byte> <k> (String of k copies)
 //!      | rfill <byte> <k> (the same as &str) | runs <n> (<byte> <k>)*n / rruns .. (ONE String / &str made of n runs)
 //!      | fillu <codepoint> <k> <byte> <j> / rfillu .. (String / &str: j copies of an ASCII byte, then k copies of a char)
@@ -464,6 +476,9 @@ enum Op {
     Out(Vec<Val>),
     Outln(Vec<Val>),
     Mv,
+    Renew,
+    Next(String, bool),
+    Echo(Val),
 }
 
 /// A sink with a scripted acceptance pattern.
@@ -514,6 +529,7 @@ macro_rules! exec_op {
                 $on_flush
             }
             Op::Mv => $mv,
+            Op::Renew | Op::Next(..) | Op::Echo(_) => bad("nw / nx / e outside their mode"),
             Op::Out(v) => match v.len() {
                 1 => {
                     out!(v[0]);
@@ -562,7 +578,7 @@ macro_rules! debug_flush_check {
     ($op:expr, $idx:expr, $writer:ident, $data:expr, $fail:expr) => {
         #[cfg(debug_assertions)]
         {
-            if !matches!($op, Op::Flush | Op::Mv) {
+            if !matches!($op, Op::Flush | Op::Mv | Op::Renew) {
                 let before = $data.borrow().len();
                 $writer.flush();
                 if $data.borrow().len() != before && $fail.is_none() {
@@ -580,11 +596,23 @@ macro_rules! debug_flush_check {
 fn run_ops(ops: &[Op], sink: Sink, data: &Rc<RefCell<Vec<u8>>>, dbg_fail: &mut Option<usize>) -> Vec<usize> {
     let mut flushes = Vec::new();
     let reader = ();
+    let (seed, maxchunk, intr) = (sink.rng.0, sink.maxchunk, sink.intr);
+    let mut generation = 0u64;
     // ManuallyDrop: if an operation panics the unwinding must not run Drop (a second panic would abort)
     let writer = ManuallyDrop::new(Writer::new(Box::new(sink)));
     rlib_io::make_output_macro!(reader, writer);
     let _ = reader;
     for (idx, op) in ops.iter().enumerate() {
+        if let Op::Renew = op {
+            // the end of this writer's life; the sink goes on living and gets the next writer.  Everything written
+            // so far has to be in the sink NOW (reported as a flush point), the new writer starts empty.
+            drop(ManuallyDrop::into_inner(writer));
+            flushes.push(data.borrow().len());
+            generation += 1;
+            let next = Sink { data: data.clone(), rng: Sm(seed ^ generation.wrapping_mul(0x9e37_79b9)), maxchunk, intr };
+            writer = ManuallyDrop::new(Writer::new(Box::new(next)));
+            continue;
+        }
         exec_op!(op, writer, { flushes.push(data.borrow().len()) }, {
             writer = ManuallyDrop::new(relocate(ManuallyDrop::into_inner(writer)));
         });
@@ -618,16 +646,6 @@ fn apply(
     debug_flush_check!(op, idx, writer, data, dbg_fail);
 }
 
-/// the `--makeio` child: the script through the real `make_io!`; the writer is dropped by leaving the function
-fn makeio_child(ops: &[Op]) {
-    rlib_io::make_io!(reader, writer);
-    for op in ops {
-        exec_op!(op, writer, {}, {
-            writer = relocate(writer);
-        });
-    }
-}
-
 macro_rules! with_int_ty {
     ($ty:expr, $m:ident, $($a:tt)*) => {
         match $ty {
@@ -646,6 +664,127 @@ macro_rules! with_int_ty {
         }
     };
 }
+macro_rules! echo_one {
+    ($t:ty, $r:ident, $w:ident) => {{
+        let x: $t = $r.read();
+        $w.write(&x);
+    }};
+}
+
+/// the `--makeio` child, ONE invocation: a piece of the script through the real `make_io!`; reader and writer are
+/// dropped by leaving the function
+#[inline(never)]
+fn makeio_once(ops: &[Op]) {
+    rlib_io::make_io!(reader, writer);
+    for op in ops {
+        if let Op::Echo(v) = op {
+            match v {
+                Val::Str(_) => echo_one!(String, reader, writer),
+                Val::StrRef(_) => {
+                    let x: String = reader.read();
+                    writer.write(&x.as_str());
+                }
+                v => match v.int_ty() {
+                    Some(ty) => with_int_ty!(ty, echo_one, reader, writer),
+                    None => bad("e: integer or string expected"),
+                },
+            }
+            continue;
+        }
+        exec_op!(op, writer, {}, {
+            writer = relocate(writer);
+        });
+    }
+}
+
+fn makeio_invoke(ops: &[Op], on_thread: bool) {
+    if on_thread {
+        // the usual `big stack` idiom: solve() runs on a thread of its own and is joined
+        let ok = std::thread::scope(|s| {
+            std::thread::Builder::new().stack_size(16 << 20).spawn_scoped(s, || makeio_once(ops)).unwrap().join().is_ok()
+        });
+        if !ok {
+            std::process::exit(101);
+        }
+    } else {
+        makeio_once(ops);
+    }
+}
+
+/// the `--makeio` child: the script cut at the `nx` ops, one `make_io!` per part, all in this one process; a marker
+/// goes to standard output with plain `print!` while no Writer is alive
+fn makeio_child(ops: &[Op], thr0: bool) {
+    let mut from = 0;
+    let mut on_thread = thr0;
+    for (i, op) in ops.iter().enumerate() {
+        if let Op::Next(marker, thr) = op {
+            makeio_invoke(&ops[from..i], on_thread);
+            if !marker.is_empty() {
+                print!("{}", marker);
+            }
+            from = i + 1;
+            on_thread = *thr;
+        }
+    }
+    makeio_invoke(&ops[from..], on_thread);
+}
+
+/// Runs the child.  Ok: the bytes on the child's standard output; Err(None): the child failed (panic, abort);
+/// Err(Some(..)): the executor's own verdict about the file standard output was redirected to.
+fn makeio_parent(child_args: &[&str], ops: &[Op], outkind: u32) -> Result<Vec<u8>, Option<(Vec<u8>, String)>> {
+    use std::process::{Command, Stdio};
+    use std::sync::atomic::{AtomicUsize, Ordering};
+    static SERIAL: AtomicUsize = AtomicUsize::new(0);
+    const PRE: &[u8] = b"<<earlier output of the job>>\n";
+    // what the `e` ops will ask the reader for, separated by blanks and newlines
+    let mut feed = String::new();
+    let mut k = 0;
+    for op in ops {
+        if let Op::Echo(v) = op {
+            feed.push_str(&v.render());
+            feed.push_str(["\n", " ", "  \n", "\t"][k % 4]);
+            k += 1;
+        }
+    }
+    if feed.len() > 32768 {
+        bad("e: more input than a pipe takes at once");
+    }
+    let mut cmd = Command::new(std::env::current_exe().unwrap());
+    cmd.arg("--makeio").args(child_args).stderr(Stdio::null());
+    cmd.stdin(if feed.is_empty() { Stdio::null() } else { Stdio::piped() });
+    let path = std::env::temp_dir().join(format!("c09-out-{}-{}", std::process::id(), SERIAL.fetch_add(1, Ordering::Relaxed)));
+    if outkind == 0 {
+        cmd.stdout(Stdio::piped());
+    } else {
+        let mut f = std::fs::File::create(&path).unwrap();
+        if outkind == 2 {
+            f.write_all(PRE).unwrap();
+        }
+        cmd.stdout(f);
+    }
+    let mut child = cmd.spawn().unwrap();
+    if let Some(mut si) = child.stdin.take() {
+        let _ = si.write_all(feed.as_bytes());
+    }
+    let out = child.wait_with_output().unwrap();
+    let mut got = out.stdout;
+    if outkind != 0 {
+        got = std::fs::read(&path).unwrap();
+        let _ = std::fs::remove_file(&path);
+    }
+    if !out.status.success() {
+        return Err(None);
+    }
+    if outkind == 2 {
+        if got.starts_with(PRE) {
+            got.drain(..PRE.len());
+        } else {
+            return Err(Some((got, "earlier-file-content".to_string())));
+        }
+    }
+    Ok(got)
+}
+
 macro_rules! rd_one {
     ($t:ty, $r:expr) => {
         $r.read::<$t>().to_string()
@@ -965,6 +1104,20 @@ fn parse_ops(t: &[&str], i: &mut usize, tagged: bool) -> (Vec<Op>, Vec<usize>) {
             }
             "f" => ops.push(Op::Flush),
             "mv" => ops.push(Op::Mv),
+            "nw" => ops.push(Op::Renew),
+            "nx" => {
+                let m = unhex(t[*i]);
+                let thr: u32 = p(t[*i + 1]);
+                *i += 2;
+                ops.push(Op::Next(m, thr != 0));
+            }
+            "e" => {
+                let v = parse_val(t, i);
+                if !(v.int_ty().is_some() || matches!(v, Val::Str(_) | Val::StrRef(_))) {
+                    bad("e: integer or string expected");
+                }
+                ops.push(Op::Echo(v));
+            }
             "o" | "ol" => {
                 let n: usize = p(t[*i]);
                 *i += 1;
@@ -994,16 +1147,28 @@ fn oracle_of<'a>(ops: impl Iterator<Item = &'a Op>, rt: u32) -> Oracle {
     let structured = rt == 3;
     for op in ops {
         match op {
-            Op::Write(v) => {
+            Op::Write(v) | Op::Echo(v) => {
                 text.push_str(&v.render());
                 readable = readable && v.reads(structured, &mut expect);
+            }
+            Op::Next(m, _) => {
+                // printed with print! between two writers: part of what standard output has to show.  A reader finds
+                // its words as tokens, provided the marker does not touch its neighbours
+                if !m.is_empty() {
+                    let free = |c: Option<char>| c.map_or(true, |c| c.is_ascii_whitespace());
+                    readable = readable && free(text.chars().last()) && free(m.chars().last()) && m.is_ascii();
+                    text.push_str(m);
+                    for tok in m.split_ascii_whitespace() {
+                        expect.push(Rd::Str(tok.to_string()));
+                    }
+                }
             }
             Op::Char(c) => {
                 text.push(*c);
                 // a separator; anything else would glue to the neighbouring tokens
                 readable = readable && c.is_ascii_whitespace();
             }
-            Op::Flush | Op::Mv => {}
+            Op::Flush | Op::Mv | Op::Renew => {}
             Op::Out(v) | Op::Outln(v) => {
                 text.push_str(&v.iter().map(|x| x.render()).collect::<Vec<_>>().join(" "));
                 for x in v {
@@ -1054,8 +1219,10 @@ fn main() {
     if args.len() >= 2 && args[1] == "--makeio" {
         let t: Vec<&str> = args[2..].iter().map(|x| x.as_str()).collect();
         let mut i = 0;
+        let thr0: u32 = p(t[0]);
+        i += 1;
         let (ops, _) = parse_ops(&t, &mut i, false);
-        makeio_child(&ops);
+        makeio_child(&ops, thr0 != 0);
         return;
     }
     vh::serve(|t| {
@@ -1067,20 +1234,15 @@ fn main() {
         }
         if t[0] == "M" {
             let rt: u32 = p(t[1]);
-            let mut i = 2;
+            let outkind: u32 = p(t[2]);
+            let mut i = 4;
             let (ops, _) = parse_ops(t, &mut i, false);
             let or = oracle_of(ops.iter(), rt);
-            let out = std::process::Command::new(std::env::current_exe().unwrap())
-                .arg("--makeio")
-                .args(&t[2..])
-                .stdin(std::process::Stdio::null())
-                .stderr(std::process::Stdio::null())
-                .output()
-                .unwrap();
-            if !out.status.success() {
-                return "P".to_string();
-            }
-            return answer(out.stdout, &[], &or, rt, None);
+            return match makeio_parent(&t[3..], &ops, outkind) {
+                Ok(got) => answer(got, &[], &or, rt, None),
+                Err(None) => "P".to_string(),
+                Err(Some((got, why))) => answer(got, &[], &or, rt, Some(why)),
+            };
         }
         let dual = t[0] == "D";
         let maxchunk: usize = p(t[1]);
